@@ -33,14 +33,14 @@ const GAP: u64 = 120_000;
 
 #[derive(Clone, Copy, PartialEq, Eq, Debug, PartialOrd, Ord)]
 enum Class {
-    /// Block::create fails after draining the pool because a rebroadcast it adds spends an
-    /// output that a pooled transaction spends
-    AtrClash,
+    /// a successful bundle left a pooled transaction out (it spends an output the block
+    /// rebroadcasts) and kept the reservations of that transaction's other inputs
+    LeftOutStale,
 }
 impl Class {
     fn id(&self) -> &'static str {
         match self {
-            Class::AtrClash => "failed-create-loses-pool",
+            Class::LeftOutStale => "left-out-tx-keeps-reservation",
         }
     }
 }
@@ -119,6 +119,10 @@ struct Ctx {
     descs: Vec<String>,
     /// outputs that were an input of some pooled transaction at some time
     touched: BTreeSet<SaitoUTXOSetKey>,
+    /// reservations left behind by a left-out transaction (listed finding), until they go
+    stale_left_out: BTreeSet<SaitoUTXOSetKey>,
+    /// signatures of pooled golden-ticket transactions built NOT to solve their target
+    bad_gts: BTreeSet<SaitoSignature>,
     // oracle state
     /// (what, Some(known class) | None = violation)
     findings: Vec<(String, Option<Class>)>,
@@ -168,6 +172,8 @@ impl Ctx {
             it: Interner::default(),
             given: BTreeMap::new(),
             touched: BTreeSet::new(),
+            stale_left_out: BTreeSet::new(),
+            bad_gts: BTreeSet::new(),
             nonce: 0,
             genesis_ledger: vec![],
             ops: vec![],
@@ -313,9 +319,15 @@ impl Ctx {
         // I3: every reservation belongs to a pooled transaction, every input of a pooled
         // transaction is reserved
         let owned = post.all_input_keys();
-        for k in post.umap.difference(&owned) {
+        let stale: BTreeSet<SaitoUTXOSetKey> = post.umap.difference(&owned).cloned().collect();
+        self.stale_left_out.retain(|k| stale.contains(k));
+        for k in &stale {
             let kk = self.it.get(k);
-            self.finding(format!("I3: reservation of output {} has no pooled transaction after {:?}", kk, kind), None);
+            let known = self.stale_left_out.contains(k);
+            self.finding(
+                format!("I3: reservation of output {} has no pooled transaction after {:?}", kk, kind),
+                if known { Some(Class::LeftOutStale) } else { None },
+            );
         }
         for k in owned.difference(&post.umap) {
             let kk = self.it.get(k);
@@ -414,9 +426,10 @@ impl Ctx {
         if must_accept && !accepted {
             let blocking: Vec<SaitoUTXOSetKey> = vin.iter().filter(|k| pre.umap.contains(*k)).cloned().collect();
             let ks: Vec<u64> = blocking.iter().map(|k| self.it.get(k)).collect();
+            let known = !blocking.is_empty() && blocking.iter().all(|k| self.stale_left_out.contains(k));
             self.finding(
                 format!("I3: funds locked: fresh valid transaction {} spending unspent output(s) {:?}, which no pooled transaction spends, is rejected", id, ks),
-                None,
+                if known { Some(Class::LeftOutStale) } else { None },
             );
         }
         if accepted && !valid_full {
@@ -439,6 +452,35 @@ impl Ctx {
         let obs = self.observe(&post);
         let t = self.it.get(&target);
         self.record(coq, format!("golden ticket for block {}", t), obs);
+    }
+
+    /// pools a golden ticket for `target` that does NOT solve it (add_golden_ticket does not
+    /// look at the solution); only possible when the target's difficulty is > 0
+    async fn op_add_bad_gt(&mut self, target: SaitoHash, seed: u64) -> bool {
+        let difficulty = self.node.blockchain.get_block(&target).map(|b| b.difficulty).unwrap_or(0);
+        if difficulty == 0 {
+            return false;
+        }
+        let mut r = hash(&seed.to_be_bytes());
+        let gt = loop {
+            let gt = GoldenTicket::create(target, r, self.node.pk);
+            if !gt.validate(difficulty) {
+                break gt;
+            }
+            r = hash(&r);
+        };
+        let pre = self.snap();
+        let gttx = saito_core::core::consensus::wallet::Wallet::create_golden_ticket_transaction(gt, &self.node.pk, &self.node.sk).await;
+        let coq = format!("OAddGT {} {}", self.it.get(&target), self.it.get(&gttx.signature));
+        self.bad_gts.insert(gttx.signature);
+        self.node.mempool.add_golden_ticket(gttx).await;
+        let post = self.snap();
+        self.stat("add_gt:not-solving");
+        self.check_invariants(OpKind::AddGt, &pre, &post, &BTreeSet::new());
+        let obs = self.observe(&post);
+        let t = self.it.get(&target);
+        self.record(coq, format!("golden ticket for block {} that does not solve it", t), obs);
+        true
     }
 
     fn tip(&self) -> Block {
@@ -558,8 +600,15 @@ impl Ctx {
         let tip = self.tip();
         let ts = tip.timestamp + gap;
         let gt_tx = self.node.mempool.golden_tickets.get(&tip.hash).map(|(t, _)| t.clone());
+        let ts_ok = ts > tip.timestamp;
+        // a pooled ticket that does not solve the tip is dropped by bundle_block (e0300b2)
+        let bad_gt = match &gt_tx {
+            Some(t) if self.bad_gts.contains(&t.signature) => Some(self.it.get(&tip.hash)),
+            _ => None,
+        };
+        let gt_used = if bad_gt.is_some() { None } else { gt_tx.clone() };
         // the conditions of can_bundle_block that do not read the pool
-        let gt_ok = self.node.blockchain.is_golden_ticket_count_valid(tip.hash, gt_tx.is_some(), false, false);
+        let gt_ok = self.node.blockchain.is_golden_ticket_count_valid(tip.hash, gt_used.is_some(), false, false);
         let mut h: Vec<u8> = self.node.pk.to_vec();
         h.extend_from_slice(&tip.hash);
         let hh = hash(&h);
@@ -592,7 +641,7 @@ impl Ctx {
         if let Some(t) = &stake {
             pre_plus.txs.entry(t.signature).or_insert((vec![], t.transaction_type, 0));
         }
-        let atr = self.rebroadcasts_on_tip(ts).await;
+        let atr = if ts_ok { self.rebroadcasts_on_tip(ts).await } else { vec![] };
         let atr_keys: BTreeSet<SaitoUTXOSetKey> =
             atr.iter().flat_map(|t| t.from.iter().filter(|s| s.amount > 0).map(key_of)).collect();
         let block = self
@@ -618,7 +667,7 @@ impl Ctx {
                 res_obs.extend(ids);
             }
             None => {
-                if let Some(g) = &gt_tx {
+                if let Some(g) = &gt_used {
                     let s = self.coq_tx(g, 0, true);
                     extra.push(format!("({})", s));
                 }
@@ -629,14 +678,23 @@ impl Ctx {
             }
         }
         let coq = format!(
-            "OBundle {} {} {} {}",
+            "OBundle {} {} {} {} {} {}",
+            gal::boolean(ts_ok),
+            match bad_gt {
+                Some(t) => format!("(Some {})", t),
+                None => "None".to_string(),
+            },
             gal::boolean(env_ok),
             work_needed,
             stake_coq,
             gal::list(&extra)
         );
+        if bad_gt.is_some() && ts_ok {
+            self.stat("bundle:dropped-non-solving-ticket");
+        }
         self.stat(&format!(
-            "bundle-conditions:env={}:work_needed={}:pool={}:{}",
+            "bundle-conditions:ts_ok={}:env={}:work_needed={}:pool={}:{}",
+            ts_ok,
             env_ok,
             if work_needed == 0 { "0" } else if work_needed <= pre.work { "<=cache" } else { ">cache" },
             if pre.txs.is_empty() { "empty" } else { "nonempty" },
@@ -647,26 +705,23 @@ impl Ctx {
         match &block {
             None => {
                 kind = OpKind::BundleNone;
-                if !pre.same_pool(&post) {
-                    // known only when a rebroadcast of this very block spends what a pooled
-                    // transaction spends, and the pool itself held no double spend
-                    let clash: Vec<u64> = pre
-                        .spenders()
-                        .keys()
-                        .filter(|k| atr_keys.contains(*k))
-                        .map(|k| self.it.get(k))
-                        .collect();
-                    let known = !clash.is_empty() && !pre_plus.has_dup_spend();
+                // allowed change: the non-solving golden ticket for the tip is dropped
+                let mut expect = pre.clone();
+                if bad_gt.is_some() && ts_ok {
+                    expect.gts.remove(&tip.hash);
+                }
+                if !expect.same_pool(&post) {
                     self.finding(
                         format!(
-                            "I4: bundle_block produced no block but emptied the pool: {} -> {} transactions lost (rebroadcast of pooled-spent output(s) {:?}); {} reservations, cached work {} afterwards",
+                            "I4: bundle_block produced no block but changed the pool: {} -> {} transactions, {} -> {} reservations, cached work {} -> {}",
                             pre.txs.len(),
                             post.txs.len(),
-                            clash,
+                            pre.umap.len(),
                             post.umap.len(),
+                            pre.work,
                             post.work
                         ),
-                        if known { Some(Class::AtrClash) } else { None },
+                        None,
                     );
                     self.stat("bundle:none-but-changed");
                 } else {
@@ -677,10 +732,30 @@ impl Ctx {
                 kind = OpKind::BundleSome;
                 self.stat("bundle:some");
                 let bs: BTreeSet<SaitoSignature> = b.transactions.iter().map(|t| t.signature).collect();
-                for sig in pre.txs.keys() {
+                // outputs that this very block rebroadcasts
+                let rk: BTreeSet<SaitoUTXOSetKey> = b
+                    .transactions
+                    .iter()
+                    .filter(|t| t.transaction_type == TransactionType::ATR)
+                    .flat_map(|t| t.from.iter().filter(|s| s.amount > 0).map(key_of))
+                    .collect();
+                let block_keys: BTreeSet<SaitoUTXOSetKey> =
+                    b.transactions.iter().flat_map(|t| t.from.iter().map(|s| s.utxoset_key)).collect();
+                for (sig, (inputs, _, _)) in pre.txs.iter() {
                     if !bs.contains(sig) {
                         let id = self.it.get(sig);
-                        self.finding(format!("I4: pooled transaction {} neither in the bundled block nor left in the pool", id), None);
+                        // the one exception of I4: the transaction spends an output that the
+                        // block rebroadcasts (Block::create leaves it out; it is doomed)
+                        if inputs.iter().any(|(k, a)| *a > 0 && rk.contains(k)) {
+                            self.stat("bundle:left-out-rebroadcast-spender");
+                            for (k, _) in inputs {
+                                if !block_keys.contains(k) && post.umap.contains(k) {
+                                    self.stale_left_out.insert(*k);
+                                }
+                            }
+                        } else {
+                            self.finding(format!("I4: pooled transaction {} neither in the bundled block nor left in the pool", id), None);
+                        }
                     }
                 }
                 for sig in post.txs.keys() {
@@ -689,8 +764,12 @@ impl Ctx {
                         self.finding(format!("I4: bundled transaction {} is still in the pool", id), None);
                     }
                 }
+                if gt_used.is_none() && b.transactions.iter().any(|t| t.transaction_type == TransactionType::GoldenTicket) {
+                    self.finding("I4: the block carries a golden ticket that does not solve the tip".to_string(), None);
+                }
             }
         }
+        let _ = &atr_keys;
         self.check_invariants(kind, &pre, &post, &BTreeSet::new());
         let mut obs = vec![res_obs];
         obs.extend(self.observe(&post));
@@ -876,9 +955,12 @@ async fn scripted(c: &mut Ctx, which: u64) {
                 c.op_submit(f, "valid", true).await;
             }
         }
-        // window edge (genesis period 5): a pooled transaction spends an output that the
-        // next block rebroadcasts; Block::create fails after draining the pool
-        6 => {
+        // window edge (genesis period 5): pooled transactions spend outputs that the next
+        // block rebroadcasts.  6: one spends only such an output, another is unrelated (before
+        // 1214e31 the whole pool was lost).  7: one spends such an output AND a young output;
+        // the bundled block is corrupted so that its addition fails, then the young output is
+        // spent by a fresh transaction (listed finding left-out-tx-keeps-reservation)
+        6 | 7 => {
             let other: Vec<Slip> = free.iter().filter(|s| s.public_key == c.keys[3].0).cloned().collect();
             let mut k = 0;
             for round in 0..14 {
@@ -887,28 +969,34 @@ async fn scripted(c: &mut Ctx, which: u64) {
                 let ours: Vec<Slip> = atr
                     .iter()
                     .flat_map(|t| t.from.iter().cloned())
-                    .filter(|s| s.amount > 0 && c.keys.iter().any(|(pk, _)| *pk == s.public_key))
+                    .filter(|s| s.amount > 0 && s.public_key == c.keys[2].0)
                     .filter(|s| c.node.blockchain.utxoset.get(&key_of(s)).copied().unwrap_or(false))
                     .collect();
-                if c.debug {
-                    eprintln!("round {} tip {} rebroadcasts {} (spendable by our keys: {})", round, tip.id, atr.len(), ours.len());
-                }
                 if !ours.is_empty() {
-                    // an unrelated pooled transaction: spends an output created after genesis,
-                    // which this block does not rebroadcast
-                    let young: Vec<Slip> = unclaimed(c).into_iter().filter(|s| s.block_id > 1 && s.public_key != c.node.pk).collect();
-                    if let Some(y) = young.first() {
-                        let unrelated = c.build_tx(&[y.clone()], 5, 0, true);
-                        c.op_submit(unrelated, "valid", true).await;
+                    // outputs created after genesis, not rebroadcast by this block, same owner
+                    let young: Vec<Slip> = unclaimed(c)
+                        .into_iter()
+                        .filter(|s| s.block_id > 1 && s.public_key == c.keys[2].0)
+                        .collect();
+                    if young.len() < 2 {
+                        break;
                     }
-                    let edge = c.build_tx(&ours[0..1], 20, 1, true);
-                    c.op_submit(edge, "valid-window-edge", true).await;
+                    let unrelated = c.build_tx(&young[0..1], 5, 0, true);
+                    c.op_submit(unrelated, "valid", true).await;
                     if Ctx::needs_gt(&c.node, tip.hash) {
                         c.op_add_gt(tip.hash, 900 + round).await;
                     }
-                    c.op_bundle(GAP, 0).await;
-                    let again = c.build_tx(&mine[0..1], 60, 0, true);
-                    c.op_submit(again, "valid", true).await;
+                    if which == 6 {
+                        let edge = c.build_tx(&ours[0..1], 20, 1, true);
+                        c.op_submit(edge, "valid-window-edge", true).await;
+                        c.op_bundle(GAP, 0).await;
+                    } else {
+                        let edge = c.build_tx(&[ours[0].clone(), young[1].clone()], 20, 1, true);
+                        c.op_submit(edge, "valid-window-edge", true).await;
+                        c.op_bundle(GAP, 1).await;
+                        let f = c.build_tx(&young[1..2], 7, 1, true);
+                        c.op_submit(f, "valid", true).await;
+                    }
                     break;
                 }
                 if k + 1 >= other.len() {
@@ -1039,7 +1127,13 @@ async fn random_case(c: &mut Ctx, rng: &mut Rng, len: usize) {
             }
             c.nonce += 1;
             let seed = c.nonce;
-            c.op_add_gt(target, seed).await;
+            if rng.chance(1, 3) && !c.node.mempool.golden_tickets.contains_key(&target) {
+                if !c.op_add_bad_gt(target, seed).await {
+                    c.op_add_gt(target, seed).await;
+                }
+            } else {
+                c.op_add_gt(target, seed).await;
+            }
         } else if r < 78 {
             // peer block: confirming / conflicting / unrelated, sometimes several transactions
             let mut txs = vec![];
@@ -1085,7 +1179,7 @@ async fn random_case(c: &mut Ctx, rng: &mut Rng, len: usize) {
                 let seed = c.nonce;
                 c.op_add_gt(tip.hash, seed).await;
             }
-            let gap = *rng.pick(&[GAP, GAP, 30_000, 9000, 6000, 5200, 150]);
+            let gap = *rng.pick(&[GAP, GAP, GAP, 30_000, 9000, 6000, 5200, 150, 0]);
             let after = if rng.chance(1, 4) { 1 } else { 0 };
             c.op_bundle(gap, after).await;
         } else if r < 94 {
@@ -1154,7 +1248,7 @@ async fn run_case(kind: u64, seed: u64, len: usize, debug: bool) -> CaseOut {
     // can_bundle_block's work comparison matters
     let heartbeat = if kind >= 100 && rng.chance(1, 2) { 10_000 } else { 100 };
     // a short window brings rebroadcasts (ATR) into reach of a short case
-    let genesis_period = if kind == 6 || (kind >= 100 && rng.chance(1, 4)) { 5 } else { 100 };
+    let genesis_period = if kind == 6 || kind == 7 || (kind >= 100 && rng.chance(1, 4)) { 5 } else { 100 };
     let mut c = Ctx::new(debug, heartbeat, genesis_period).await;
     if kind < 100 {
         scripted(&mut c, kind).await;
@@ -1195,7 +1289,7 @@ fn main() {
             }
         }
     };
-    let mut plan: Vec<(u64, u64, usize)> = (0..8u64).map(|k| (k, 0, 0)).collect();
+    let mut plan: Vec<(u64, u64, usize)> = (0..9u64).map(|k| (k, 0, 0)).collect();
     for _ in 0..nrandom {
         let len = rng.range(6, 22) as usize;
         plan.push((100, rng.next(), len));
